@@ -1,0 +1,50 @@
+//go:build verif
+
+// Contracts for the interfaces of package api (comment-only; see /verif/DESIGN.md).
+// This file contains no declarations: with and without the `verif` tag the compiled code is identical.
+package api
+
+// ---- abstract state shared between the SHIP layer and its information provider (the hub) ----
+
+//@ ghost global $Trusted map[string]bool
+//@ ghost global $AutoAccept bool
+
+// per-connection ghost counters: callbacks made for a connection (synchronous + scheduled)
+//@ ghost field ShipConnection.$reports int
+//@ ghost field ShipConnection.$setup int
+//@ ghost field ShipConnection.$idReports int
+//@ ghost field ShipConnection.$closeCalled bool
+//@ ghost field ShipConnection.$closeScheduled bool
+//@ ghost field ShipConnection.$everApproved bool
+
+// ghost state of a websocket data connection (the writer side)
+//@ ghost field WebsocketDataWriter.$wsClosed bool
+//@ ghost field WebsocketDataWriter.$writes int
+
+//@ iface ShipConnectionInfoProviderInterface.IsRemoteServiceForSKIPaired(ski) pure
+//@   ensures result == $Trusted[ski]
+//@ iface ShipConnectionInfoProviderInterface.IsAutoAcceptEnabled() pure
+//@   ensures result == $AutoAccept
+//@ iface ShipConnectionInfoProviderInterface.AllowWaitingForTrust(ski) pure
+//@ iface ShipConnectionInfoProviderInterface.HandleShipHandshakeStateUpdate(ski, state)
+//@   ensures $Trusted[ski] == (old($Trusted[ski]) || state.State == model.SmeHelloStateOk)
+//@   modifies $Trusted[ski]
+//@ iface ShipConnectionInfoProviderInterface.HandleConnectionClosed(conn, done)
+//@   ensures conn.$reports == old(conn.$reports) + 1
+//@   modifies conn.$reports
+//@ iface ShipConnectionInfoProviderInterface.ReportServiceShipID(ski, id)
+//@ iface ShipConnectionInfoProviderInterface.SetupRemoteDevice(ski, writeI)
+//@   ensures result != nil
+
+//@ iface WebsocketDataWriterInterface.InitDataProcessing(reader)
+//@ iface WebsocketDataWriterInterface.WriteMessageToWebsocketConnection(msg)
+//@   ensures this.$writes == old(this.$writes) + 1
+//@   modifies this.$writes
+//@ iface WebsocketDataWriterInterface.CloseDataConnection(code, reason)
+//@   ensures this.$wsClosed
+//@   modifies this.$wsClosed
+//@ iface WebsocketDataWriterInterface.IsDataConnectionClosed() pure
+//@   ensures result.0 == this.$wsClosed
+//@   ensures result.0 ==> result.1 != nil
+
+//@ iface ShipConnectionDataReaderInterface.HandleShipPayloadMessage(msg)
